@@ -48,6 +48,13 @@ def prepare(dest=None, log=None, only_modules=None):
     if t2 != t:
         open(p, "w").write(t2)
         log.append("compat: fastpasta/src/init.rs drop statement human_panic::setup_panic!();")
+    # crate-level feature gate for harness stubs whose signature must name the (unstable) Allocator trait
+    # (a stub of Vec::<T, A>::retain needs the same generic parameters as the original): attribute only, under cfg(kani)
+    p = src + "/fastpasta/src/lib.rs"
+    t = open(p).read()
+    if "feature(allocator_api)" not in t:
+        open(p, "w").write("#![cfg_attr(kani, feature(allocator_api))]\n" + t)
+        log.append("compat: fastpasta/src/lib.rs prepend #![cfg_attr(kani, feature(allocator_api))]")
     # 2/3. attach
     att = json.load(open(VERIF + "/contracts/kani/attach.json"))
     wanted = None
